@@ -133,7 +133,7 @@ func isBaseRemover(f *ssa.Function) bool {
 	})
 	for _, g := range scan { // the name test may sit in a predicate closure (slices.IndexFunc)
 		eachInstr(g, func(in ssa.Instruction) {
-			if bo, ok := in.(*ssa.BinOp); ok && bo.Op == token.EQL {
+			if bo, ok := in.(*ssa.BinOp); ok && (bo.Op == token.EQL || bo.Op == token.NEQ) { // `== name` or `!= name { continue }`
 				if mentionsField(bo.X, pkgDomain, "Endpoint", "Name", 3) && mentionsField(bo.Y, pkgDomain, "Endpoint", "Name", 3) {
 					cmp = true
 				}
@@ -430,12 +430,25 @@ func checkC04(c *Ctx, r *Report) {
 		if listPhi == nil {
 			return false
 		}
-		for _, e := range listPhi.Edges {
-			if e == call {
-				return true
+		// … directly or through the merge a three-clause loop puts in front of its post statement
+		seenPhi := map[*ssa.Phi]bool{}
+		var feeds func(p *ssa.Phi) bool
+		feeds = func(p *ssa.Phi) bool {
+			if seenPhi[p] {
+				return false
 			}
+			seenPhi[p] = true
+			for _, e := range p.Edges {
+				if e == ssa.Value(call) {
+					return true
+				}
+				if q, ok := e.(*ssa.Phi); ok && feeds(q) {
+					return true
+				}
+			}
+			return false
 		}
-		return false
+		return feeds(listPhi)
 	}
 	memoMark := map[*ssa.Function]bool{}
 	isUpdate := func(in ssa.Instruction) bool {
